@@ -233,6 +233,298 @@ def interannual_cases(tier, res, problems, boost):
                                      f"L//2+S//2={k_near} days away from it were changed", case))
 
 
+def _relayout(a, kind):
+    """the same logical (t, x, y) array in another memory layout"""
+    if kind == "F":
+        return np.asfortranarray(a)
+    if kind == "stored[x,y,t]":  # e.g. netCDF [lat, lon, time] moved to time-first
+        return np.ascontiguousarray(a.transpose(1, 2, 0)).transpose(2, 0, 1)
+    if kind == "strided":
+        big = np.zeros((2 * a.shape[0], a.shape[1] + 1, 2 * a.shape[2]), dtype=a.dtype)
+        out = big[::2, 1:, ::2]
+        out[...] = a
+        return out
+    return np.ascontiguousarray(a)
+
+
+def _present_values(values, spec, gaps):
+    """the object handed to `apply` for the logical float64 values `values` (t, x, y), of which the cells `gaps` (bool) are
+    invalid: a dtype, a container (ndarray / ndarray with NaN at the gaps / masked array without mask, with an all-False mask,
+    with the gaps masked — three construction paths, the original value or a fill value in the storage under the mask) and a
+    memory layout.  Element-wise, so two value arrays that agree at a cell are presented identically at that cell."""
+    dt, co = spec["dtype"], spec["container"]
+    x = (np.rint(values) if dt.startswith("i") else values).astype(dt)
+    if co == "nan/gaps":
+        x[gaps] = np.nan
+    elif co == "masked/gaps" and spec["under_mask"] != "original":
+        x[gaps] = spec["under_mask"]
+    x = _relayout(x, spec["layout"])
+    if co == "masked/nomask":
+        return np.ma.masked_array(x)
+    if co == "masked/all-false":
+        return np.ma.masked_array(x, mask=np.zeros(x.shape, dtype=bool))
+    if co == "masked/gaps":
+        if spec["built_by"] == "masked_where":
+            a = np.ma.masked_where(gaps, x)
+        elif spec["built_by"] == "view-assign":
+            a = np.ma.masked_array(x)
+            a[gaps] = np.ma.masked
+        else:
+            a = np.ma.masked_array(x, mask=gaps.copy())
+        if not np.array_equal(np.ma.getmaskarray(a), gaps):
+            a = np.ma.masked_array(x, mask=gaps.copy())  # the construction path did not give the intended array: the plain constructor
+        return a
+    return x
+
+
+def presentation_cases(tier, res, problems, boost):
+    """Locality for every KIND OF INPUT OBJECT the public entry point accepts and converts (round 6).
+
+    Quantifiers of the property covered here (every case above hands gap-free, C-contiguous float64 ndarrays to the debiaser,
+    most of them to `apply_location` directly; whatever `Debiaser.apply` does to its arguments BEFORE the windows are formed —
+    the dtype conversion, the treatment of masked arrays and of their invalid cells — was never between the perturbed data
+    and the compared value, so a conversion that looks at the whole series, e.g. a gap filled from a statistic over all time
+    steps, went unseen):
+      * "for all inputs": per argument a dtype (float64 / float32 / int32 / int64) x a container (ndarray; ndarray with NaN
+        cells; masked array without mask / with an all-False mask / with masked cells, built by three construction paths,
+        with the original value or a fill value such as -9999 / 1e20 in the storage under the mask) x a memory layout
+        (C, Fortran, time-last storage, strided view); the invalid cells INSIDE the target day's neighbourhood (on the target
+        day itself, up to L//2 + S//2 days from it), far away from it, or both; grids of 1..4 locations with their own series
+        and their own gaps;
+      * "for all perturbations of out-of-window values": x3, +1e6, a constant, a spell half a year away — of the VALID
+        far-away values (the storage under a mask is not a value) —, and a valid far-away value BECOMING invalid (further
+        far-away cells masked / NaN); of one series or of all three;
+      * "for all target days": every step of the corrected series on the target's calendar day, at every location, bit for bit;
+      * "all deterministic debiaser configurations in running-window mode": the eight tas configurations, the non-parametric
+        QuantileMapping, ISIMIP psl / rlds, multiplicative LS / DC on precipitation; through `apply` (DeltaChange: its own);
+      * "the window really uses data up to L//2 days": LinearScaling with S = 1 given a masked / converted cm_hist must react
+        to a change of VALID values at distance exactly L//2 (judged where the unperturbed values on the target day are defined).
+    The oracle is the property's own clause: the two runs differ only in values whose calendar day (the harness's independent
+    calendar) is farther than L//2 + S//2 from the target day; the invalid cells near the target are the same cells in both
+    runs.  Each compared value must be bit-for-bit the same; an undefined value (NaN: a gap inside the window of a method
+    that does not skip gaps) stays undefined.  A run that raises on input WITH gaps is the documented behaviour of a method
+    without support for missing values (no locality statement: skipped and counted)."""
+    rng = random.Random(C.seed() * 104729 + 80086)  # a stream of its own: the cases of `run` / `interannual_cases` keep theirs
+    res.rule += ("; presentation cases = (debiaser, L, S, target doy, per-argument dtype / container / layout / gap placement, perturbation "
+                 "kind, perturbed series), non-trivial when the perturbed index set is non-empty")
+    from ibicus.debias import QuantileMapping
+
+    tas_names = list(probes.window_debiasers(31, 1))
+    # generator steering only (never the verdict): the configurations whose per-window method is defined on a window with gaps
+    gap_tolerant = ["LinearScaling", "DeltaChange", "ISIMIP", "QuantileMapping-nonparametric", "ISIMIP-psl", "ISIMIP-rlds",
+                    "LinearScaling-pr", "DeltaChange-pr"]
+    pr_names = ["LinearScaling-pr", "DeltaChange-pr"]
+    series_names = ["obs", "cm_hist", "cm_future"]
+    reps = (1 if tier == "quick" else 6) * (3 if boost else 1)
+    n_case = 0
+    for rep in range(reps):
+        if tier == "quick" and not boost:
+            plan = gap_tolerant[:4] + [gap_tolerant[4 + (rep + C.seed()) % 4]] + [n for n in tas_names if n not in gap_tolerant]
+        else:
+            plan = gap_tolerant + [n for n in tas_names if n not in gap_tolerant]
+        for name in plan:
+            n_case += 1
+            data_seed = rng.randint(0, 2**31 - 1)
+            nprs = np.random.RandomState(data_seed)
+            is_pr, is_dc = name in pr_names, name.startswith("DeltaChange")
+            y0 = rng.randint(1950, 2070)
+            if rng.random() < 0.5:
+                y0 -= y0 % 4
+            nx, ny = rng.choice([(1, 1), (1, 1), (1, 2), (2, 1), (2, 2)])
+
+            def span(y):
+                return probes.dates_from(datetime.date(y, rng.randint(1, 12), rng.randint(1, 28)) if rng.random() < 0.5 else datetime.date(y, 1, 1),
+                                         365 * 2 + rng.randint(1, 400))
+
+            raw = {"obs": span(y0 - 30), "cm_hist": span(y0 - 30 - rng.randint(0, 3)), "cm_future": span(y0 + rng.randint(0, 20))}
+            doys = {s: probes.indep_doy(raw[s]) for s in series_names}  # independent of the library
+            par = {"obs": (0.5, 4.0, 283, 3), "cm_hist": (0.6, 3.0, 285, 4), "cm_future": (0.55, 3.5, 287, 4)}
+            vals = {}
+            for s in series_names:
+                cols = [probes.pr_like(nprs, raw[s], par[s][0], par[s][1]) if is_pr else probes.tas_like(nprs, raw[s], par[s][2], par[s][3])
+                        for _ in range(nx * ny)]
+                vals[s] = np.stack(cols, axis=1).reshape(raw[s].size, nx, ny)
+            cheap = name.startswith(("LinearScaling", "DeltaChange")) or name in ("QuantileMapping", "QuantileMapping-nonparametric")
+            S = rng.choice([1, 1, 5, 15, 31] if cheap else [5, 15, 31])
+            L = S + rng.choice([0, 4, 16, 30])
+            if is_pr:
+                L = max(L, 15)  # multiplicative scaling of precipitation: no all-dry window (0/0)
+            Ln, Sn = L + (L % 2 == 0), S + (S % 2 == 0)
+            k_near = Ln // 2 + Sn // 2
+            corrected = "obs" if is_dc else "cm_future"
+            cand = [i for i, d in enumerate(doys[corrected]) if d in (1, 2, 365, 366, 59, 60)]
+            ti = rng.choice(cand) if cand and rng.random() < 0.4 else rng.randrange(doys[corrected].size)
+            t = int(doys[corrected][ti])
+            targets = np.where(doys[corrected] == t)[0]
+            near = {s: near_mask(k_near, t, doys[s]) for s in series_names}
+
+            # ---- how each argument is presented, and which of its cells are invalid
+            forced = series_names[(n_case + C.seed()) % 3] if name in gap_tolerant or rng.random() < 0.34 else None
+            specs, gaps = {}, {}
+            for s in series_names:
+                co = rng.choice(["ndarray", "masked/nomask", "masked/all-false", "masked/gaps", "masked/gaps", "nan/gaps"]
+                                if name in gap_tolerant else ["ndarray", "ndarray", "masked/nomask", "masked/all-false"])
+                place = rng.choice(["near", "near", "far", "both"])
+                if s == forced:
+                    co, place = "masked/gaps", rng.choice(["near", "near", "both"])
+                dt = rng.choice(["f8", "f8", "f4"] if is_pr or co == "nan/gaps" else ["f8", "f8", "f4", "i4", "i8"])
+                under = "original"
+                if co == "masked/gaps":
+                    under = rng.choice(["original", -9999, 1e20] if dt.startswith("f") else ["original", -9999])
+                specs[s] = {"dtype": dt, "container": co, "layout": rng.choice(["C", "C", "F", "stored[x,y,t]", "strided"]),
+                            "under_mask": under, "built_by": rng.choice(["masked_array", "masked_where", "view-assign"]) if co == "masked/gaps" else None,
+                            "gaps": None, "gap_cells": []}
+                g = np.zeros(vals[s].shape, dtype=bool)
+                if co in ("masked/gaps", "nan/gaps"):
+                    specs[s]["gaps"] = place
+                    for where in (["near", "far"] if place == "both" else [place]):
+                        idx = np.where(near[s] if where == "near" else ~near[s])[0]
+                        on_target = np.where(doys[s] == t)[0]
+                        for _ in range(rng.randint(1, 4)):
+                            i0 = int(rng.choice(on_target)) if where == "near" and on_target.size and rng.random() < 0.3 else int(rng.choice(idx))
+                            ci, cj = rng.randrange(nx), rng.randrange(ny)
+                            for i in range(i0, min(i0 + rng.randint(1, 3), raw[s].size)):  # a single cell or an outage of up to three days
+                                if (near[s][i]) == (where == "near"):
+                                    g[i, ci, cj] = True
+                    specs[s]["gap_cells"] = [[int(i), int(a), int(b)] for i, a, b in zip(*np.where(g))]
+                gaps[s] = g
+            any_gap = any(g.any() for g in gaps.values())
+            gap_near = any((gaps[s] & near[s][:, None, None]).any() for s in series_names)
+            enc = probes.pick_kind(rng)
+            times = {s: probes.present(raw[s], enc) for s in series_names}
+            if name == "QuantileMapping-nonparametric":
+                kw = dict(running_window_mode=True, running_window_length=L, running_window_step_length=S)
+                mk = lambda: QuantileMapping.from_variable("tas", mapping_type="nonparametric", detrending="no_detrending", **kw)  # noqa: E731
+            elif name in tas_names:
+                mk = probes.window_debiasers(L, S)[name]
+            else:
+                mk = probes.window_debiasers_extra(L, S)[name][0]
+            base_case = {"what": "locality-presentation/" + name, "L": L, "S": S, "grid": [nx, ny], "data_seed": data_seed,
+                         "data_recipe": "r = numpy.random.RandomState(data_seed); for obs, cm_hist, cm_future in turn, for each location in C order: "
+                                        + ("probes.pr_like(r, days, wet, scale) with (wet, scale) = (0.5, 4), (0.6, 3), (0.55, 3.5)" if is_pr else
+                                           "probes.tas_like(r, days, mean, sd) with (mean, sd) = (283, 3), (285, 4), (287, 4)")
+                                        + "; days = n consecutive days from start; cast to dtype (integers: rounded), gap_cells [t, x, y] invalid",
+                         "start": {s: str(raw[s][0]) for s in series_names}, "n": {s: int(raw[s].size) for s in series_names},
+                         "presented_as": specs, "target_doy": t, "target_indices": [int(i) for i in targets], "time_encoding": enc,
+                         "called_through": "apply", "seed": C.seed()}
+
+            def run_deb(v, gp):
+                with warnings.catch_warnings():
+                    warnings.simplefilter("ignore")
+                    args = {s: _present_values(v[s], specs[s], gp[s]) for s in series_names}
+                    return np.asarray(mk().apply(args["obs"], args["cm_hist"], args["cm_future"], progressbar=False, time_obs=times["obs"],
+                                                 time_cm_hist=times["cm_hist"], time_cm_future=times["cm_future"]))
+
+            try:
+                a = run_deb(vals, gaps)
+            except Exception as ex:  # noqa: BLE001
+                if any_gap:
+                    res.extra["presentation_skipped_run_with_gaps_raises"] = res.extra.get("presentation_skipped_run_with_gaps_raises", 0) + 1
+                else:
+                    problems.append((f"{name} [presentation]: {type(ex).__name__} on gap-free input in a dtype / container / layout that `apply` "
+                                     f"documents to convert: {str(ex)[:120]}", base_case))
+                continue
+            res.extra["presentation_cases_run"] = res.extra.get("presentation_cases_run", 0) + 1
+            res.extra["presentation_cases_gap_near_target"] = res.extra.get("presentation_cases_gap_near_target", 0) + int(gap_near)
+            kinds = ["x3", "+1e6", "+c", "spell", "more-gaps-far"]
+            rng.shuffle(kinds)
+            for kind in kinds[:2 if tier == "quick" else 3]:
+                which = rng.choice(["obs", "cm_hist", "cm_future", "all", "all"])
+                amount = rng.choice([-1, 1]) * rng.randint(3 * 64, 8 * 64) / 64
+                if kind == "more-gaps-far" and not any(specs[s]["gaps"] for s in series_names if which in ("all", s)):
+                    kind = "x3"  # no perturbed argument is presented with gaps
+
+                def perturbed(kind):
+                    pv, pg, n_far = {}, {}, 0
+                    prs = np.random.RandomState(data_seed ^ 0x5EED)
+                    for s in series_names:
+                        x, g = vals[s].copy(), gaps[s].copy()
+                        if which in ("all", s):
+                            far = ~near[s]
+                            if kind == "spell":
+                                far = far & near_mask(3, t + 183, doys[s])
+                            if kind == "more-gaps-far":
+                                if specs[s]["gaps"]:
+                                    fi = np.where(far)[0]
+                                    for i in prs.choice(fi, size=min(3, fi.size), replace=False) if fi.size else []:
+                                        g[int(i), prs.randint(nx), prs.randint(ny)] = True
+                                    n_far += int((g & ~gaps[s]).sum())
+                            else:
+                                if kind == "x3":
+                                    x[far] = x[far] * 3
+                                elif kind == "+1e6":
+                                    x[far] = x[far] + (1e3 if is_pr else 1e6)
+                                else:
+                                    x[far] = x[far] * (1 + abs(amount) / 4) if is_pr else x[far] + amount
+                                n_far += int(far.sum()) * nx * ny
+                        pv[s], pg[s] = x, g
+                    return pv, pg, n_far
+
+                pv, pg, n_far = perturbed(kind)
+                case = dict(base_case, perturbation=kind, perturbed_series=which, amount=amount, n_perturbed=n_far)
+                b = None
+                try:
+                    b = run_deb(pv, pg)
+                except Exception as ex:  # noqa: BLE001
+                    if not (any_gap or kind == "more-gaps-far"):
+                        problems.append((f"{name} [presentation]: {type(ex).__name__} after changing only finite values more than L//2+S//2={k_near} "
+                                         f"days away from day {t} ({kind} on {which}) of gap-free input, none on the unperturbed input: {str(ex)[:120]}", case))
+                        continue
+                    # A gap in an UNRELATED window (one that straddles the edge of the neighbourhood and now holds shifted and
+                    # unshifted values, or one that got a further gap) making that window's method raise is the documented
+                    # behaviour of a method without support for missing values, not a locality statement (DESIGN §4: fall back
+                    # to a milder perturbation, skip and count if that raises too).
+                    if kind != "+c":
+                        kind = "+c"
+                        pv, pg, n_far = perturbed(kind)
+                        case = dict(base_case, perturbation=kind, perturbed_series=which, amount=amount, n_perturbed=n_far)
+                        try:
+                            b = run_deb(pv, pg)
+                        except Exception:  # noqa: BLE001
+                            b = None
+                if b is None:
+                    res.extra["presentation_skipped_run_with_gaps_raises"] = res.extra.get("presentation_skipped_run_with_gaps_raises", 0) + 1
+                    continue
+                res.count(("presentation", name, L, S, t, kind, which, "|".join(f"{specs[s]['dtype']},{specs[s]['container']},{specs[s]['gaps']}" for s in series_names)),
+                          n_far > 0, sample=case if res.extra.get("presentation_comparisons", 0) < 2 else None)
+                res.extra["presentation_comparisons"] = res.extra.get("presentation_comparisons", 0) + 1
+                if a.shape != b.shape or a.dtype != b.dtype:
+                    problems.append((f"{name} [presentation, {kind} on {which}]: result {a.dtype}{list(a.shape)} became {b.dtype}{list(b.shape)}", case))
+                    continue
+                va, vb = a[targets].astype(float), b[targets].astype(float)
+                both_nan = np.isnan(va) & np.isnan(vb)
+                res.extra["presentation_targets_nan_in_both_runs"] = res.extra.get("presentation_targets_nan_in_both_runs", 0) + int(both_nan.sum())
+                res.extra["presentation_targets_defined_compared"] = res.extra.get("presentation_targets_defined_compared", 0) + int((~both_nan).sum())
+                bad = ~(((va == vb) & (np.signbit(va) == np.signbit(vb))) | both_nan)
+                if bad.any():
+                    j = [int(x) for x in np.argwhere(bad)[0]]
+                    case["changed_cells"] = [[int(targets[i]), int(p), int(q)] for i, p, q in np.argwhere(bad)[:20]]
+                    problems.append((f"{name} [presentation, {kind} on {which}]: {int(bad.sum())} of {bad.size} values on day {t} changed (first: step "
+                                     f"{int(targets[j[0]])} at location {j[1:]}, {va[tuple(j)]!r} -> {vb[tuple(j)]!r}) although only {n_far} values more than "
+                                     f"L//2+S//2={k_near} days away from it were changed; arguments presented as "
+                                     + ", ".join(f"{s}: {specs[s]['dtype']} {specs[s]['container']}" + (f" (gaps {specs[s]['gaps']})" if specs[s]['gaps'] else "")
+                                                 for s in series_names), case))
+            # ---- the window really reaches L//2 days, whatever the container: valid cm_hist values at distance exactly L//2
+            if name == "LinearScaling" and Sn == 1 and Ln >= 3:
+                at = near_mask(Ln // 2, t, doys["cm_hist"]) & ~near_mask(Ln // 2 - 1, t, doys["cm_hist"])
+                valid_at = at[:, None, None] & ~gaps["cm_hist"]
+                defined = np.isfinite(a[targets]).all(axis=0) & valid_at.any(axis=0)  # per location
+                if defined.any():
+                    v3 = dict(vals, cm_hist=vals["cm_hist"].copy())
+                    v3["cm_hist"][at] += 10.0
+                    case = dict(base_case, perturbation="+10 on cm_hist exactly L//2 days away")
+                    try:
+                        c3 = run_deb(v3, gaps)
+                    except Exception as ex:  # noqa: BLE001
+                        problems.append((f"{name} [presentation]: {type(ex).__name__} after adding 10 to valid cm_hist values: {str(ex)[:120]}", case))
+                        continue
+                    res.count(("presentation-reach", L, t, specs["cm_hist"]["container"], specs["cm_hist"]["dtype"]), True)
+                    unchanged = (c3[targets] == a[targets]) & defined[None, :, :]
+                    if unchanged.any():
+                        problems.append((f"LinearScaling [presentation]: changing the valid cm_hist values exactly {Ln // 2} days from day {t} left "
+                                         f"{int(unchanged.sum())} defined values on that day unchanged: the window is narrower than documented", case))
+
+
 def run(tier, res, force_search=False):
     from ibicus.utils import day_of_year
 
@@ -550,6 +842,9 @@ def run(tier, res, force_search=False):
 
     # ---- the same oracle on multi-year series with inter-annual structure, perturbed unevenly across the years
     interannual_cases(tier, res, problems, bool(force_search or not lean_ok or mismatches))
+
+    # ---- the same oracle for every kind of input object `apply` accepts (dtypes, masked arrays with invalid cells, layouts, grids)
+    presentation_cases(tier, res, problems, bool(force_search or not lean_ok or mismatches))
 
     seen = set()
     for p, case in problems:
